@@ -44,7 +44,9 @@ RULE = (
     "(one integer, one float64 component), integer (int32/int64 lattice) coordinates; step names unique / drawn from a pool of three / "
     "all equal / the class name (so repeated, also across nesting levels); life-cycle histories: the same chain object fitted on A then "
     "on B with another bounding box and size (block reductions without an explicit region), clones taken after a fit, set_params on held "
-    "steps and replaced step lists between fits; "
+    "steps and replaced step lists between fits; duck-typed steps that are not BaseGridder (level step with filter+predict, wrapper with "
+    "fit/filter/predict around a verde estimator in warped coordinates, filter-only thinning step) at first / middle / last positions and "
+    "inside nested chains, recorded by the same tap and judged by the same oracles; "
     "1-D and 2-D inputs, optional third coordinate; fit, predict at the data and elsewhere, direct filter calls, and histories "
     "(the same chain/vector object fitted again on other data). Every Chain.fit / Chain.predict / Vector.fit / Vector.predict / "
     "filter execution, nested ones included, is decided from its recorded call tree. Non-trivial = a Chain.fit with >= 2 steps of "
@@ -78,7 +80,11 @@ FLOORS = {
               "chain_names:all_equal": 85, "chain_names:some_repeated": 55, "chain_names:repeated_among_predicting_steps": 110,
               "chain_names:shared_with_nested_chain": 65, "history:refit_with_regionless_reduction": 22, "history:clone_after_fit": 24,
               "history:parameters_changed_between_fits": 10, "eval:params_unchanged": 480, "eval:reduction_blocks_on_own_region": 170,
-              "reduction_region:own_bounding_box": 140, "eval:clone_after_fit_equals_new": 24},
+              "reduction_region:own_bounding_box": 140, "eval:clone_after_fit_equals_new": 24,
+              # duck-typed steps (harness classes that are not BaseGridder) by position and class
+              "duck_step:position:first": 40, "duck_step:position:middle": 30, "duck_step:position:last": 90, "duck_step:in_nested_chain": 75,
+              "duck_step:class:LevelStep": 70, "duck_step:class:WarpedGridder": 90, "duck_step:class:ThinStep": 35,
+              "chain_predict:sum_of_duck_typed_and_other_steps": 200},
     "thorough": {"eval:filter": 18500, "eval:chain_fit_order": 9000, "eval:chain_threading": 9000, "eval:conservation_events": 9000,
                  "eval:conservation_predict": 8800, "eval:chain_predict_sum": 23000, "eval:vector_routing": 3900,
                  "eval:vector_vs_separate": 15500, "eval:vector_predict": 11500, "eval:refit_equals_fresh": 1650,
@@ -88,10 +94,13 @@ FLOORS = {
                  "chain_predicting_step_followed:data_dtype:int16": 520, "chain_predicting_step_followed:data_dtype:int32": 520,
                  "chain_predicting_step_followed:data_dtype:int64": 520, "chain_predicting_step_followed:data_dtype:float32": 900,
                  "chain_predicting_step_followed:data_dtype:mixed": 380,
-                 "chain_names:all_equal": 1800, "chain_names:some_repeated": 1300, "chain_names:repeated_among_predicting_steps": 2500,
-                 "chain_names:shared_with_nested_chain": 1400, "history:refit_with_regionless_reduction": 440, "history:clone_after_fit": 380,
-                 "history:parameters_changed_between_fits": 230, "eval:params_unchanged": 8500, "eval:reduction_blocks_on_own_region": 3300,
-                 "reduction_region:own_bounding_box": 2700, "eval:clone_after_fit_equals_new": 380},
+                 "chain_names:all_equal": 1500, "chain_names:some_repeated": 1050, "chain_names:repeated_among_predicting_steps": 1950,
+                 "chain_names:shared_with_nested_chain": 1000, "history:refit_with_regionless_reduction": 410, "history:clone_after_fit": 380,
+                 "history:parameters_changed_between_fits": 230, "eval:params_unchanged": 8500, "eval:reduction_blocks_on_own_region": 3100,
+                 "reduction_region:own_bounding_box": 2500, "eval:clone_after_fit_equals_new": 380,
+                 "duck_step:position:first": 780, "duck_step:position:middle": 850, "duck_step:position:last": 1450, "duck_step:in_nested_chain": 1650,
+                 "duck_step:class:LevelStep": 1400, "duck_step:class:WarpedGridder": 1900, "duck_step:class:ThinStep": 600,
+                 "chain_predict:sum_of_duck_typed_and_other_steps": 4000},
 }
 JOBS = {"quick": 1, "thorough": 8}
 CASE_TIMEOUT_S = 300
@@ -103,7 +112,7 @@ TINY = float(np.finfo("float64").tiny)
 
 def plan(tier):
     if tier == "quick":
-        return collections.OrderedDict(scalar_chain=28, vector=13, vector_chain=11, refit=10, filter=7)
+        return collections.OrderedDict(scalar_chain=32, vector=14, vector_chain=12, refit=10, filter=7)
     return collections.OrderedDict(ambient=4, scalar_chain=560, vector=240, vector_chain=220, refit=160, filter=100)
 
 
@@ -654,6 +663,7 @@ def install(tap, run):
                 where = "only" if len(steps) == 1 else "first" if k == 0 else "last" if k == len(steps) - 1 else "middle"
                 run.count("duck_step:%s:%s" % (type(s).__name__, where))
                 run.count("duck_step:position:" + where)
+                run.count("duck_step:class:" + type(s).__name__)
                 if ev.parent is not None:
                     run.count("duck_step:in_nested_chain")
         if len(steps) >= 2 and any(predicts(s) for s in steps):
@@ -912,7 +922,11 @@ def install(tap, run):
         STATE.vector_fits[id(vec)] = (vec, clones)
         if contains(vec, VectorSpline2D):
             return
-        got = quiet(vec.predict, coords)
+        try:
+            got = quiet(vec.predict, coords)
+        except Exception as exc:  # noqa: BLE001 - only normal returns are judged; the workload meets the raise itself
+            run.count("skipped:vector_vs_separate:predict_raised:" + type(exc).__name__)
+            return
         compare_with_clones("vector_vs_separate", vec, desc, clones, coords, got, data, witness)
 
     def compare_with_clones(monitor, vec, desc, clones, coords, got, data, witness):
@@ -922,7 +936,11 @@ def install(tap, run):
             bad = "prediction is not a tuple with one array per component"
         else:
             for i, fresh in enumerate(clones):
-                want = quiet(fresh.predict, coords)
+                try:
+                    want = quiet(fresh.predict, coords)
+                except Exception as exc:  # noqa: BLE001
+                    run.count("skipped:vector_vs_separate:clone_predict_raised:" + type(exc).__name__)
+                    return
                 scale = max(_absmax(want), _absmax(data[i]) if data is not None else 0.0, TINY)
                 ok, ratio = _close(got[i], want, 1e-9 * scale)
                 run.observe_max("vector_vs_separate_error_over_tolerance", ratio)
